@@ -617,11 +617,16 @@ func setNthValue(ctx context.Context, scope *ReferenceScope, partition Partition
 		var val value.Primary = value.NewNull()
 		count := 0
 
-		for i := frame.Low; i <= frame.High; i++ {
-			if i < 0 || len(partition) <= i {
-				continue
-			}
-
+		// only the positions inside the partition can hold a value: a frame bound far outside it must not be walked
+		// position by position
+		low, high := frame.Low, frame.High
+		if low < 0 {
+			low = 0
+		}
+		if len(partition)-1 < high {
+			high = len(partition) - 1
+		}
+		for i := low; i <= high; i++ {
 			recordIdx := partition[i]
 			v, ok := valueCache[recordIdx]
 			if !ok {
